@@ -111,16 +111,38 @@ static size_t count_wanted(const ares_dns_record_t *rec)
   return n;
 }
 
-/* the CNAME of the answer section, if any (shapes have at most one) */
-static const ares_dns_rr_t *the_cname(const ares_dns_record_t *rec)
+/* the k-th CNAME of the answer section, if any (shapes have a chain of at most two, in chain order) */
+static const ares_dns_rr_t *cname_at(const ares_dns_record_t *rec, size_t k)
 {
-  size_t i;
+  size_t i, seen = 0;
   for (i = 0; i < ares_dns_record_rr_cnt(rec, ARES_SECTION_ANSWER); i++) {
     const ares_dns_rr_t *rr = ares_dns_record_rr_get_const(rec, ARES_SECTION_ANSWER, i);
-    if (ares_dns_rr_get_type(rr) == ARES_REC_TYPE_CNAME && ares_dns_rr_get_class(rr) == ARES_CLASS_IN)
-      return rr;
+    if (ares_dns_rr_get_type(rr) == ARES_REC_TYPE_CNAME && ares_dns_rr_get_class(rr) == ARES_CLASS_IN) {
+      if (seen == k)
+        return rr;
+      seen++;
+    }
   }
   return NULL;
+}
+static const ares_dns_rr_t *the_cname(const ares_dns_record_t *rec) { return cname_at(rec, 0); }
+static size_t               cname_cnt(const ares_dns_record_t *rec)
+{
+  size_t k = 0;
+  while (k < 3 && cname_at(rec, k) != NULL)
+    k++;
+  return k;
+}
+/* h_aliases = the alias names in chain order, NULL-terminated; returns 1 when it is exactly that */
+static int aliases_are_chain(char **al, const ares_dns_record_t *rec)
+{
+  size_t k, nc = cname_cnt(rec);
+  if (al == NULL)
+    return 0;
+  for (k = 0; k < nc; k++)
+    if (al[k] == NULL || !streq(al[k], ares_dns_rr_get_name(cname_at(rec, k))))
+      return 0;
+  return al[nc] == NULL;
 }
 
 static const char *qname(const ares_dns_record_t *rec)
@@ -133,10 +155,11 @@ static const char *qname(const ares_dns_record_t *rec)
 /* TTL a legacy address entry must carry: the smallest TTL along the alias chain (ares_parse_a_reply(3)) */
 static int chain_ttl(const ares_dns_record_t *rec, const ares_dns_rr_t *rr)
 {
-  const ares_dns_rr_t *c = the_cname(rec);
-  unsigned int         t = ares_dns_rr_get_ttl(rr);
-  if (c != NULL && ares_dns_rr_get_ttl(c) < t)
-    t = ares_dns_rr_get_ttl(c);
+  unsigned int t = ares_dns_rr_get_ttl(rr);
+  size_t       k;
+  for (k = 0; k < cname_cnt(rec); k++)
+    if (ares_dns_rr_get_ttl(cname_at(rec, k)) < t)
+      t = ares_dns_rr_get_ttl(cname_at(rec, k));
   return (int)t;
 }
 
@@ -188,23 +211,21 @@ void harness(void)
       } else if (n == 0) {
         /* alias only: deliberately a success carrying the alias chain and no address (upstream commit 2c63440, pinned
          * by the test-suite: ParseAReplyJustCname) */
-        const ares_dns_rr_t *c = the_cname(rec);
+        const ares_dns_rr_t *c = cname_at(rec, cname_cnt(rec) - 1);
         VP_ASSERT(st == ARES_SUCCESS && host != NULL, "alias only: success and a hostent");
         VP_ASSERT(streq(host->h_name, ares_dns_rr_get_str(c, ARES_RR_CNAME_CNAME)), "alias only: h_name is the alias target");
-        VP_ASSERT(host->h_aliases != NULL && streq(host->h_aliases[0], ares_dns_rr_get_name(c)) && host->h_aliases[1] == NULL,
-                  "alias only: h_aliases holds the alias name");
+        VP_ASSERT(aliases_are_chain(host->h_aliases, rec), "alias only: h_aliases holds the alias name(s), in chain order");
         VP_ASSERT(host->h_addr_list != NULL && host->h_addr_list[0] == NULL && ntt == 0, "alias only: no address, no addrttl entry");
         VP_WITNESS("nodata");
       } else {
-        const ares_dns_rr_t *c = the_cname(rec);
+        const ares_dns_rr_t *c = cname_cnt(rec) ? cname_at(rec, cname_cnt(rec) - 1) : NULL;
         VP_ASSERT(st == ARES_SUCCESS && host != NULL, "addresses present: success and a hostent");
         VP_ASSERT(host->h_addrtype == (PARSER == 1 ? AF_INET : AF_INET6) && host->h_length == (PARSER == 1 ? 4 : 16),
                   "hostent family and address length");
         /* official name = end of the alias chain; aliases = the alias names */
         VP_ASSERT(streq(host->h_name, c ? ares_dns_rr_get_str(c, ARES_RR_CNAME_CNAME) : qname(rec)), "h_name: name after following the alias");
         if (c) {
-          VP_ASSERT(host->h_aliases != NULL && streq(host->h_aliases[0], ares_dns_rr_get_name(c)) && host->h_aliases[1] == NULL,
-                    "h_aliases: the alias name");
+          VP_ASSERT(aliases_are_chain(host->h_aliases, rec), "h_aliases: every alias name of the chain, in chain order");
         } else {
           VP_ASSERT(host->h_aliases != NULL && host->h_aliases[0] == NULL, "no alias");
         }
